@@ -328,9 +328,13 @@ func opReuseParse(args []string) string {
 	rec := NewRecorder()
 	p := f.NewParser(rec)
 	var ds []string
-	for _, d := range docs {
+	for i, d := range docs {
 		rec.Reset()
 		if err := feed(p, mustHex(d)); err != nil {
+			// a document of the history is refused by the REUSED parser: does a new one take it?
+			if feed(f.NewParser(NewRecorder()), mustHex(d)) == nil {
+				return "refused@" + strconv.Itoa(i) + ":a-new-parser-accepts-it"
+			}
 			return "err"
 		}
 		ds = append(ds, depthsOf(hookParserDepths(p)))
